@@ -88,6 +88,15 @@ CLAIMED["C06"] = dict(
     note="Trusted: cross-run tolerances of DESIGN 2.3. Labels capped at 3e5. Nets in which a pump / compressor carries zero or reverse flow are "
          "discarded (discontinuous lift: several solutions possible), as are verdict mismatches of such nets.",
     ref="DESIGN.md 4/C06")
+CLAIMED["C08"] = dict(
+    technique="metamorphic property-based testing: same network from generated start values and with both damping strategies, pairwise agreement of converged runs",
+    text="Exploration: generated hydraulic nets (pn_bar scaled 0.3..3 per junction) and heating nets in the three situations where tfluid_k is a "
+         "pure start value (bidirectional; sequential with a constant-property fluid; mode='heat' from one fixed hydraulic solution; shifts of "
+         "+-40 K) are solved with constant and automatic damping; every pair of converged runs is compared on all result columns.",
+    note="Trusted: uniqueness of the solution for the Nikuradse law (hydraulic cases are restricted to it). Runs ending in the negative-pressure "
+         "mirror solution (returned with a UserWarning) and runs that do not converge from a far start are discards. Known finding: non-unique "
+         "solutions with pump / compressor bypass.",
+    ref="DESIGN.md 4/C08")
 NOT_YET = {}
 
 def main():
